@@ -251,7 +251,8 @@ struct Engine
 
     MElem gen_elem(const MVec& m, int style = 0) { return G::make_model_elem(next_id++, m.fixed, gen_counts(m, style)); }
 
-    Vec construct_vec(size_t n, size_t bytes, const std::vector<size_t>& fixed, int arena)
+    // constructs in place (no move construction on the way: that is an operation of its own)
+    void construct_vec(std::optional<Vec>& slot, size_t n, size_t bytes, const std::vector<size_t>& fixed, int arena)
     {
         typename Vec::allocator_type alloc{arena};
         if constexpr (Cfg::N_FIXED != 0)
@@ -259,14 +260,14 @@ struct Engine
             std::array<size_t, Cfg::N_FIXED> fs{};
             std::copy(fixed.begin(), fixed.end(), fs.begin());
             if constexpr (Cfg::N_VARYING != 0)
-                return Vec(n, bytes, fs, alloc);
+                slot.emplace(n, bytes, fs, alloc);
             else
-                return Vec(n, fs, alloc);
+                slot.emplace(n, fs, alloc);
         }
         else if constexpr (Cfg::N_VARYING != 0)
-            return Vec(n, bytes, alloc);
+            slot.emplace(n, bytes, alloc);
         else
-            return Vec(n, alloc);
+            slot.emplace(n, alloc);
     }
 
     // --------------------------------------------------------------------------------------------- bookkeeping around an op
@@ -351,6 +352,7 @@ struct Engine
                 for (size_t k = 0; k < NF; ++k)
                     if (Cfg::fields()[k].tracked) expect_tracked += e.f[k].size();
             digest = mix(digest, m.e.size() * 31 + s[i].v->capacity());
+            for (auto f : m.fixed) digest = mix(digest, f + 7);
             for (auto& e : m.e) digest = mix(digest, e.id);
             flags_from_state(*s[i].v, m);
         }
@@ -422,7 +424,7 @@ struct Engine
         const auto a = before();
         {
             LibCall lc;
-            s[i].v.emplace(construct_vec(m.cap, m.budget, m.fixed, m.arena));
+            construct_vec(s[i].v, m.cap, m.budget, m.fixed, m.arena);
         }
         s[i].m = m;
         cf.data_allocs += 1;
@@ -440,8 +442,28 @@ struct Engine
         begin_op(OP_DEFAULT_CONSTRUCT, -1, -1, fmt("v%d", i));
         const auto a = before();
         {
+            // default-INITIALISATION (`Vec v;`) in storage that held something else before: members without an initialiser
+            // are indeterminate then (value-initialisation, as std::optional::emplace() does, would zero them first)
+            alignas(Vec) unsigned char buf[sizeof(Vec)];
+            const unsigned char junk_byte[4] = {0x00, 0xFF, 0xA5, 0x3C};
+            std::memset(buf, junk_byte[ledger().junk % 4], sizeof buf);
             LibCall lc;
-            s[i].v.emplace();
+            Vec* p = ::new (static_cast<void*>(buf)) Vec;
+            s[i].v.emplace(std::move(*p));
+            p->~Vec();
+        }
+        {
+            // whatever fixed sizes a default-constructed vector reports must at least be determinate and usable
+            const auto fs = Mon::fixed_sizes(std::as_const(*s[i].v));
+            for (size_t k = 0; k < fs.size(); ++k)
+                if (fs[k] > 64)
+                {
+                    viol("C18", "default_constructed_fixed_size_indeterminate", fmt("get_fixed_size<%zu>() of a default-constructed vector is %zu (depends on what the storage held before)", k, fs[k]));
+                    s[i].m = m;
+                    cut = true;
+                    return;
+                }
+            m.fixed = fs;
         }
         s[i].m = m;
         no_allocator_traffic(a, "default construction");
@@ -703,8 +725,9 @@ struct Engine
         const size_t now = std::as_const(*s[i].v).memory_consumption();
         size_t fresh;
         {
-            Vec probe = construct_vec(m.cap, m.budget, m.fixed, m.arena);
-            fresh = std::as_const(probe).memory_consumption();
+            std::optional<Vec> probe;
+            construct_vec(probe, m.cap, m.budget, m.fixed, m.arena);
+            fresh = std::as_const(*probe).memory_consumption();
         }
         const size_t bound = std::max({before_bytes, source_bytes, fresh});
         counters().add("footprints_checked");
